@@ -622,8 +622,25 @@ def F18():
     return None
 
 
+def F36():
+    """C04/C19: unsubscribe([]) is accepted and an UNSUBSCRIBE packet without any topic filter is written
+    (a protocol violation, MQTT-3.10.3-2: the broker closes the connection); subscribe([]) raises ValueError."""
+    for proto in (4, 5):
+        w = World()
+        c = mk_client(w, proto=proto)
+        connect(c, w, proto=proto)
+        n0 = len(w.cur().wire)
+        try:
+            r = c.unsubscribe([])
+        except ValueError:
+            continue
+        sent = bytes(w.cur().wire[n0:])
+        return f"unsubscribe([]) returned {tuple(int(x) if x is not None else None for x in r)} and wrote {sent.hex()} (UNSUBSCRIBE with no topic filter), MQTT {proto}"
+    return None
+
+
 ALL = {"F1": F1, "F2": F2, "F3": F3, "F4": F4, "F4b": F4b, "F5": F5, "F6": F6, "F7": F7, "F8": F8, "F9": F9,
-       "F10": F10, "F19": F19, "F20": F20, "F21": F21, "F22": F22, "F23": F23, "F24": F24, "F25": F25, "F26": F26, "F29": F29, "F27": F27, "F28": F28, "F11": F11, "F12": F12, "F13": F13, "F13t": F13t, "F35": F35, "F34": F34, "F33": F33, "F32": F32, "F31": F31, "F30": F30, "F15": F15, "F16": F16, "F17": F17, "F18": F18}
+       "F10": F10, "F19": F19, "F20": F20, "F21": F21, "F22": F22, "F23": F23, "F24": F24, "F25": F25, "F26": F26, "F29": F29, "F27": F27, "F28": F28, "F11": F11, "F12": F12, "F13": F13, "F13t": F13t, "F35": F35, "F36": F36, "F34": F34, "F33": F33, "F32": F32, "F31": F31, "F30": F30, "F15": F15, "F16": F16, "F17": F17, "F18": F18}
 
 
 def run(name):
